@@ -241,6 +241,7 @@ def closure_pred(ex, clo, argkind='char'):
     sub_ex = Exec(ex.prog, ex.dispatch)
     sub_ex.ctxs = []
     sub_ex.lmax = ex.lmax
+    sub_ex.hooks = list(getattr(ex, 'hooks', []))
     x = z3.Int('clo_x')
     cases = []
 
@@ -318,6 +319,9 @@ def iter_next(ex, it):
     it = deref(it)
     if it.kind == 'splitn':
         return splitn_next(ex, it)
+    if it.kind == 'seqiter':
+        import models_it
+        return models_it.seq_next(ex, it)
     if it.kind == 'peekable':
         if it.peeked is not None:
             v = it.peeked
